@@ -124,14 +124,38 @@ def rule_y2(chk: Check, ix: Index):
 def rule_y3(chk: Check, ix: Index):
     """Text provenance in _build_syntax_error."""
     f = ix.get("Parser._build_syntax_error")
-    src = {norm_stmt(s) for s in ast.walk(f.node) if isinstance(s, ast.stmt)}
-    chk.count("Y3-text-provenance")
-    # token branch: the token whose start is reported supplies the line
-    tok_branch = any(isinstance(n, ast.If) and norm_stmt(n.test) == "line_from_token" and
-                     [norm_stmt(s) for s in n.body] == ["line = tok.line"] for n in ast.walk(f.node))
-    flag_ok = "line_from_token = start is None and end is None" in src
-    chk.require(tok_branch and flag_ok, "Y3-text-provenance", "_build_syntax_error:token-line", f.where,
-                "when no explicit span is given the text must be the line of the very token whose start is reported")
+    # decided by evaluating the builder on the four combinations of given / missing start and end, with a recording tokenizer:
+    # whatever its shape, (file, line, column + 1, text, end line, end column + 1) must come out as specified
+    import types as _t
+    from .. import constfold
+    tok = _t.SimpleNamespace(start=(7, 3), end=(8, 9), line="TOKEN LINE\n")
+
+    class _Tk:
+        def diagnose(self):
+            return tok
+
+        def get_lines(self, nums):
+            return [f"<{n}>\n" for n in nums]
+    me = _t.SimpleNamespace(_tokenizer=_Tk(), filename="FILE")
+    ev = constfold.builder_expr_eval(("diagnose", "get_lines", "join", "SyntaxError", "IndentationError"))
+    params = [a.arg for a in f.node.args.args]
+    for label, S, E in (("no-span", None, None), ("start-only", (5, 2), None), ("end-only", None, (9, 4)), ("both", (5, 2), (6, 1)),
+                        ("end-at-column-0", (5, 2), (6, 0)), ("same-position", (5, 0), (5, 0)), ("end-only-column-0", None, (9, 0))):
+        chk.count("Y3-text-provenance")
+        try:
+            err = constfold.eval_pure_function(f.node, {params[0]: me, params[1]: "MSG", params[2]: S, params[3]: E},
+                                               extra={"SyntaxError": SyntaxError, "IndentationError": IndentationError}, expr_eval=ev)
+        except constfold.PureEvalError as e:
+            chk.undecided("Y3-text-provenance", f"_build_syntax_error:{label}", f.where, f"outside the evaluable subset: {e}")
+            continue
+        s0, e0 = S or tok.start, E or tok.end
+        text = tok.line if (S is None and E is None) else "\\n".join(f"<{n}>\n" for n in range(s0[0], e0[0] + 1))
+        want = ("MSG", ("FILE", s0[0], s0[1] + 1, text, e0[0], e0[1] + 1))
+        got = getattr(err, "args", None)
+        chk.require(isinstance(err, SyntaxError) and got == want, "Y3-text-provenance", f"_build_syntax_error:{label}", f.where,
+                    f"with {label.replace('-', ' ')} the error must carry {want}; it carries {got}: a missing position defaults to the "
+                    f"diagnosed token's, the text is that token's own line when no span is given and otherwise the lines start[0]..end[0] "
+                    f"of the source, columns are 1-based on both ends")
     # raise sites give both positions, so that the text comes from the line store (a fabricated end-of-input token has no line)
     for q2, g in sorted(ix.funcs.items()):
         if g.cls != "Parser":
@@ -144,15 +168,6 @@ def rule_y3(chk: Check, ix: Index):
                             f"{q2}:{norm_stmt(c)[:50]}", f"{g.rel}:{c.lineno}",
                             "the error is built without a start and an end: its text is then the diagnosed token's own `line`, which is "
                             "empty for the NEWLINE fabricated at the end of input (`if x` without a final newline reports text '')")
-    chk.count("Y3-text-provenance")
-    rng = [n for n in ast.walk(f.node) if isinstance(n, ast.Call) and norm_stmt(n.func) == "range"]
-    ok = len(rng) == 1 and [norm_stmt(a) for a in rng[0].args] == ["start[0]", "end[0] + 1"]
-    chk.require(ok, "Y3-text-provenance", "_build_syntax_error:line-range", f.where,
-                "the looked-up text must cover start[0] .. end[0] inclusive, so that it begins with the reported line")
-    chk.count("Y3-text-provenance")
-    dflt = {"start = start or tok.start", "end = end or tok.end"} <= src
-    chk.require(dflt, "Y3-text-provenance", "_build_syntax_error:defaults", f.where,
-                "a missing start/end must default to the start/end of the same diagnosed token")
 
 
 def rule_y3b(chk: Check, ix: Index):
